@@ -10,6 +10,10 @@ Proof. vm_compute. reflexivity. Qed.
 
 (** The close discipline also rests on the lock sections and on the
     attribution being closed (shared with C07). *)
+(** Every sender on a channel that realm.close closes is awaited by it first. *)
+Lemma closable_senders_covered_holds : closable_senders_covered gen_funcs = true.
+Proof. vm_compute. reflexivity. Qed.
+
 Lemma close_lock_sections_hold :
   lock_sections_ranked gen_funcs = true /\ attribution_closed gen_funcs gen_entries = true.
 Proof. vm_compute. split; reflexivity. Qed.
